@@ -433,6 +433,8 @@ class Evaluator:
             if idx.is_const() and idx.value().denominator == 1 and bk.startswith("divmod("):
                 return elem_term(bk, int(idx.value()))
             return Term.atom(f"sub({bk},{idx.key()})")
+        if isinstance(node, ast.Starred):
+            return Term.atom("*" + self.ev(node.value).key())  # a splatted positional argument
         if isinstance(node, ast.NamedExpr):
             v = self.ev(node.value)
             if isinstance(node.target, ast.Name):
@@ -669,6 +671,20 @@ class Evaluator:
             # truthiness of a remainder / a length is `!= 0` resp. `> 0`; rendered like the comparison so both spellings agree
             d = t
             return f"{d.key()} != 0" if k.startswith("mod(") else f"{d.key()} > 0"
+        if len(t.p) == 1 and list(t.p.values())[0] == 1 and len(list(t.p)[0]) == 1 and k.startswith("cond(") and k.endswith(")"):
+            # the truth of a value that is itself a condition (a named boolean `b = x < y`; `if b:`) is that condition
+            depth = 0
+            whole = True
+            for i_, ch_ in enumerate(k):
+                if ch_ == "(":
+                    depth += 1
+                elif ch_ == ")":
+                    depth -= 1
+                    if depth == 0 and i_ != len(k) - 1:
+                        whole = False
+                        break
+            if whole:
+                return k[5:-1]
         return "truthy(" + k + ")"
 
     def _cmp(self, l, op, r):
